@@ -28,7 +28,12 @@ def scn_poll(ctx):
     eps = ctx.eps
     ev = ctx.ev
     me = ManualExecutor(ev)
-    interval = ctx.real("interval", lo=1, hi=10)
+    if p.get("huge_interval"):
+        # an interval that means "only when told": beyond what a timed wait accepts (threading.TIMEOUT_MAX ~ 9.2e9 s)
+        from fractions import Fraction
+        interval = SReal(Fraction(10 ** 10))
+    else:
+        interval = ctx.real("interval", lo=1, hi=10)
     import threading
     gate = threading.Event()
     in_poll = [0]
@@ -294,6 +299,7 @@ def plan(tier, seed):
             dict(scenario="poll", params=dict(n=2, script_calls=1, double_yields=True), bounds=dict(P=0)),
             dict(scenario="poll", params=dict(n=2, script_calls=2, during_poll=True), bounds=dict(P=1)),
             dict(scenario="poll", params=dict(n=1, script_calls=1, cancel=True, falsy_cancel_fn=True), bounds=dict(P=1)),
+            dict(scenario="poll", params=dict(n=2, script_calls=1, huge_interval=True), bounds=dict(P=0)),
         ]
     return [
         dict(scenario="poll", params=dict(n=3, script_calls=2), bounds=dict(P=1)),
